@@ -52,6 +52,21 @@ class SStr(Sym):
         return f"SStr[{self.kind}]({self.e})"
 
 
+class SDec(Sym):
+    """abstract decimal rendering: the string ``"%0*d" % (w, v)`` for v >= 0 and a concrete width w.
+    Meta-rule (trusted, DESIGN 2.2): its last d <= w characters are ``"%0*d" % (d, v mod 10^d)``;
+    two renderings are equal iff values and total lengths are equal; total length is w when v < 10^w."""
+
+    __slots__ = ("v", "w")
+
+    def __init__(self, v, w):
+        self.v = v
+        self.w = w
+
+    def __repr__(self):
+        return f"SDec({self.v}, width={self.w})"
+
+
 class SSeq(Sym):
     """symbolic-length sequence of ints (z3 Seq(Int)); kind: 'list' | 'tuple' | 'bytes' | 'gen'"""
 
@@ -174,10 +189,11 @@ class SClosure:
 class SStub:
     """a callable implemented in the sidecar (trusted model of an external or an abstracted callee)"""
 
-    def __init__(self, fn, name="stub", trusted=None):
+    def __init__(self, fn, name="stub", trusted=None, attrs=None):
         self.fn = fn
         self.name = name
         self.trusted = trusted
+        self.attrs = dict(attrs or {})
 
     def __repr__(self):
         return f"<stub {self.name}>"
@@ -225,6 +241,8 @@ def pytype_name(v):
         return "bytes"
     if isinstance(v, SStr):
         return v.kind
+    if isinstance(v, SDec):
+        return "str"
     if isinstance(v, tuple):
         return "tuple"
     if isinstance(v, SList):
